@@ -52,6 +52,7 @@ Split == st = "started" /\ nsplits' = nsplits + 1 /\ prevSplit' = (IF nsplits = 
 Next == Tick \/ Start \/ Restart \/ Stop \/ Resume \/ Split
 
 IndInv == /\ st \in {"none", "started", "stopped"}
+          /\ started \in Int /\ stopped \in Int /\ clock \in Int /\ nsplits \in Int /\ lastSplit \in Int /\ prevSplit \in Int
           /\ nsplits >= 0
           /\ (st = "none" => nsplits = 0)
           /\ (st # "none" => started <= clock)
